@@ -64,6 +64,49 @@ CLAIMS.update({
             NOTE_PY + "; ListenerParser, register/unregister bookkeeping, _register_* (the '.' vs ':' clause), dict handlers, WeakIDKeyDict and deferred registration are not covered: this is the weakest claim of the set", "6 C16"),
 })
 
+
+# ---- additions of the later sessions: what else is under contract now, and the notes that went stale -------------------
+EXTRA_TEXT = {
+    "C03": " The Python side is now under contract as well: BaseInt/BaseFloat/BaseComplex/BaseStr/BaseBytes/BaseBool.validate, the six casting validates, This.validate/validate_none, BaseCallable.validate and BaseRange.float_validate are proved against the SAME per-kind spec functions (spec/validators.py, over an engine-neutral observation of outcome, result and conversion-protocol events) as validate_trait_integer/float/self_type/callable/cast_type/float_range; a data lemma ties every literal fast_validate descriptor to the ValidateTrait number and the validate_handlers entry of that C function; BaseInstance.resolve_class installs on a trait the descriptor of that trait's own handler (compound table recomputed first).",
+    "C01": " Also: BaseRange.int_validate / float_validate (static ranges: the converted value lies in the bounds, integer / IEEE ordering) and HasTraits.trait_set (every keyword through setattr, in order; quiet mode switched back on on every exit).",
+    "C02": " Delivery wrappers: AbstractStaticChangeNotifyWrapper.__call__ (both argument tables, arities 0-4), TraitChangeNotifyWrapper._notify_function_listener / _notify_method_listener / _dispatch_change_event: the handler is called exactly once iff _change_accepted, with the documented arguments of its arity (the three argument_transforms tables are checked against the documented signatures), any Exception of the handler is contained; HasTraits.trait_set re-enables notifications on every exit.",
+    "C04": " Whole-value assignment: List/Set/Dict.validate build a fresh wrapper bound to (trait, receiving object, name) from a legal value and reject everything else; the in-place set operators are also proved for frozenset operands.",
+    "C05": " *= is proved for integer multipliers and for multipliers without __index__ (TypeError, list untouched); every mutator contract has a random probe oracle as fallback when a rewritten function leaves the subset.",
+    "C06": " __setitem__ is proved with == between values as an arbitrary equivalence (the assigned object itself is stored); probe oracle as fallback.",
+    "C07": " In-place operators also for frozenset operands; probe oracle as fallback.",
+    "C08": " Set-item and dict-value maintainers under the same delta contract as the list-item maintainer; ObserverChangeNotifier.add_to / remove_from (multiplicity counting).",
+    "C09": " ObserverChangeNotifier.add_to / remove_from (one entry per registration, the first equivalent entry removed, NotifierNotFound and nothing changed otherwise); apply_observers is decided also for rollbacks written with reversed(); the atomic oracle covers removals that raise half-way with registration counts 1-3.",
+    "C10": " Union.__init__: only a CONSTANT first-member default becomes the Union's constant default, any other kind is computed per instance through the first member.",
+    "C11": " HasTraits._init_trait_delegate_listener: one non-deferred on_trait_change(forwarder, listener name, target=self), recorded under the trait name for later removal.",
+    "C12": " Cut-point contract inside update_traits_class_dict: the observer state of an observed Property is rebuilt from the class's own final trait (its cached flag) whatever was merged from the bases; clone_traits installs listeners and observers before copy_traits assigns.",
+    "C14": " HasTraits.clone_traits (fresh object, memo[id(self)] before copying, listeners/observers before values, every step once in order), HasTraits.copy_traits (values carried over by setattr on the receiver, value under the trait's copy mode, delegates/properties only after ordinary traits) and List/Set/Dict.validate (restored containers re-wrapped for the new owner).",
+    "C16": " handle_dict / handle_dict_items: values under removed, added AND changed keys (bags over loops by invariant), with a legacy-vs-observe oracle on unshared graphs as replay.",
+    "C17": " mro_distance_to_protocol (None iff not provided now; number of leading providing supertypes by loop invariant; recomputed at every call -- no memoisation) and _get_applicable_offers (exactly the applicable offers not on the path, with their distance, in order; bounded shape 2x2).",
+    "C18": " New obligation kind: a value borrowed from an instance dictionary may be handed to Python-running code (type slots, trait handlers, PyObject_Call...) only while the function holds a reference of its own.",
+    "C19": " trait_set, the notification wrappers and the sync weak-reference callback add their exceptional postconditions.",
+    "C20": " The weak-reference callback of sync_trait (partner collected): dead links deleted, empty partner tables pruned, the lock table entry left as found (bounded shape 2 traits x 2 links).",
+}
+STALE = [
+    ("; the Python-side validate methods are not under contract ('decide exactly like the Python validators' is proved as 'both meet the same spec' only for the float range)", "; BaseEnum/Map/BaseTuple/BaseInstance/BaseType.validate and the C side of Complex are not under contract"),
+    ("; the notifier wrapper classes (TraitChangeNotifyWrapper etc.) are not under contract", "; TraitChangeNotifyWrapper.init/equals, the ui/new dispatch wrappers and TraitEventNotifier.__call__ are not under contract"),
+    ("; HasTraits.__getstate__/clone_traits/copy_traits and the state methods of the other TraitTypes are not under contract", "; HasTraits.__getstate__ and the state methods of the other TraitTypes are not under contract; copy_traits' coverage clause (every requested name assigned / reported / event) only through the concrete oracle"),
+    ("; the listener install/remove functions in has_traits.py are not under contract", "; _remove_trait_delegate_listener and the nested forwarder are not under contract"),
+    ("; _adapt's soundness invariant, _get_applicable_offers, register_* and the C side validate_trait_adapt are not yet under contract", "; _adapt's soundness invariant and register_* are not yet under contract"),
+    ("; dict/set item maintainers, the observers'", "; the observers'"),
+    ("_register_* (the '.' vs ':' clause), dict handlers, WeakIDKeyDict", "_register_* (the '.' vs ':' clause), WeakIDKeyDict"),
+    ("; List/Dict/Set.validate wrappers and nested containers rely on the modularity argument", "; nested containers rely on the modularity argument"),
+]
+for pid, extra in EXTRA_TEXT.items():
+    t, n, r = CLAIMS[pid]
+    for old, new in STALE:
+        n = n.replace(old, new)
+    CLAIMS[pid] = (t + extra, n, r)
+for pid in list(CLAIMS):
+    t, n, r = CLAIMS[pid]
+    for old, new in STALE:
+        n = n.replace(old, new)
+    CLAIMS[pid] = (t, n, r)
+
 NOT_YET = "not claimed yet: the contracts for this property are still being built (plan in DESIGN.md section 6); no other technique is substituted"
 
 
